@@ -542,6 +542,14 @@ class SeqOfKind(object):
             coqio.cbool(self.ct), coqio.cbool(self.isset), coqio.clist([c_op(o) for o in ops]),
             coqio.clist(['(%s, %s)' % (c_out(o), self.c_snap(s)) for o, s in trace]))
 
+    def c_proto(self, P):
+        return 'None' if P is None else '(Some %s)' % coqio.clist([coqio.cZ(z) for z in P])
+
+    def coq_spec_check(self, ops, ptrace):
+        tr = coqio.clist(['None' if e is None else '(Some (%s, %s))' % (self.c_proto(e[0]), c_out(e[1])) for e in ptrace])
+        return 'l_spec_check %s %s None %s %s' % (coqio.cbool(self.ct), coqio.cbool(self.isset),
+                                                 coqio.clist([c_op(o) for o in ops]), tr)
+
     def coq_run(self, ops):
         return 'sof_run %s %s None %s' % (coqio.cbool(self.ct), coqio.cbool(self.isset), coqio.clist([c_op(o) for o in ops]))
 
@@ -902,6 +910,14 @@ class RecKind(object):
         return 'rec_first_bad %s %s (Some []) %s %s 0%%nat' % (
             self.c_cfg(), coqio.cbool(self.isset), coqio.clist([c_op(o) for o in ops]), self.c_trace(trace))
 
+    def c_proto(self, P):
+        return coqio.clist([coqio.copt(P.get(k), coqio.cZ) for k in range(self.N)])
+
+    def coq_spec_check(self, ops, ptrace):
+        tr = coqio.clist(['None' if e is None else '(Some (%s, %s))' % (self.c_proto(e[0]), c_out(e[1])) for e in ptrace])
+        return 'r_spec_check %s %s (r_init %s) %s %s' % (self.c_cfg(), coqio.cbool(self.isset), self.c_cfg(),
+                                                        coqio.clist([c_op(o) for o in ops]), tr)
+
     def coq_run(self, ops):
         return 'rec_run %s %s (Some []) %s' % (self.c_cfg(), coqio.cbool(self.isset), coqio.clist([c_op(o) for o in ops]))
 
@@ -1040,6 +1056,13 @@ class ChoiceKind(RecKind):
     def coq_first_bad(self, ops, trace):
         return 'ch_first_bad %s ch_init %s %s 0%%nat' % (self.c_cfg(), coqio.clist([c_op(o) for o in ops]), self.c_trace(trace))
 
+    def c_proto(self, P):
+        return 'None' if P is None else '(Some (%s, %s))' % (coqio.cnat(P[0]), coqio.copt(P[1], coqio.cZ))
+
+    def coq_spec_check(self, ops, ptrace):
+        tr = coqio.clist(['None' if e is None else '(Some (%s, %s))' % (self.c_proto(e[0]), c_out(e[1])) for e in ptrace])
+        return 'c_spec_check %s None %s %s' % (self.c_cfg(), coqio.clist([c_op(o) for o in ops]), tr)
+
     def coq_run(self, ops):
         return 'ch_run %s ch_init %s' % (self.c_cfg(), coqio.clist([c_op(o) for o in ops]))
 
@@ -1069,13 +1092,15 @@ class StepReport(object):
 
 def run_history(kind, ops, stop_at_first=False):
     """Run ops on a fresh real object and, in parallel, on the plain Python prototype.
-    -> trace [(outcome, snapshot)], property failures [StepReport], modelled_upto
-    A failure that leaves the two sides in different states ends the prototype comparison for the rest
+    -> trace [(outcome, snapshot)], property failures [StepReport], modelled_upto, ptrace
+    ptrace: per step (prototype state after, prototype outcome) where the prototype predicts, else None; it ends
+    where the prototype stops being driven.  A failure that leaves the two sides in different states ends the prototype comparison for the rest
     of the history (the correspondence with the Coq model continues)."""
     obj = kind.make()
     P = kind.proto_init()
     trace = []
     failures = []
+    ptrace = []
     proto_live = True
     modelled_upto = len(ops)
     for i, op in enumerate(ops):
@@ -1099,6 +1124,7 @@ def run_history(kind, ops, stop_at_first=False):
         obs = kind.observe(obj, snap)
         cls = kind.finding_class(P, op)
         verdict = kind.proto_step(P, op)
+        ptrace.append((verdict[1], verdict[2]) if verdict[0] == 'wf' else None)
         what = None
         diverged = False
         detail = None
@@ -1136,7 +1162,7 @@ def run_history(kind, ops, stop_at_first=False):
             failures.append(StepReport(what, cls, i, detail))
             if diverged or stop_at_first:
                 proto_live = False
-    return trace, failures, modelled_upto
+    return trace, failures, modelled_upto, ptrace
 
 
 def shrink_history(kind, ops, failure, budget=300):
@@ -1145,7 +1171,7 @@ def shrink_history(kind, ops, failure, budget=300):
 
     def still(cand):
         try:
-            _, fs, _ = run_history(kind, cand)
+            _, fs, _, _ = run_history(kind, cand)
         except Exception:
             return False
         return any(f.what == failure.what and f.finding == failure.finding and f.step == len(cand) - 1 for f in fs)
